@@ -38,6 +38,20 @@ type VerifUnitResult struct {
 	Outcomes    map[string]int   `json:"outcomes"`
 	Violations  []VerifViolation `json:"violations,omitempty"`
 	Sample      string           `json:"sample,omitempty"`
+	BaseReject  string           `json:"base_rejected,omitempty"` // the base value itself was refused by the encoder
+}
+
+// VerifC09DomainRules: the documented restrictions of the input domain (for the evidence file).
+func VerifC09DomainRules() []string {
+	var out []string
+	for _, r := range vdomainRules {
+		out = append(out, fmt.Sprintf("%s …%s ∌ {%s}: %s", r.Root, r.PathSuffix, r.Alts, r.Why))
+	}
+	for k, why := range vskip {
+		out = append(out, "not a slot: "+k+" ("+why+")")
+	}
+	sort.Strings(out)
+	return out
 }
 
 type vcaseID struct {
@@ -162,7 +176,11 @@ func (r *vrun) violate(clause, msg string, errText ...string) {
 	}
 	e := ""
 	if len(errText) > 0 && errText[0] != "" {
-		e = " err=" + vtrunc(vstripNumbers(strings.TrimPrefix(strings.TrimPrefix(errText[0], "kafka: error decoding packet: "), "kafka: error encoding packet: ")), 70)
+		t := vstripNumbers(strings.TrimPrefix(strings.TrimPrefix(errText[0], "kafka: error decoding packet: "), "kafka: error encoding packet: "))
+		if len(t) > 48 {
+			t = t[:48]
+		}
+		e = " err=" + strings.TrimSpace(t)
 	}
 	fam := vfam(r.id.fam)
 	cfg := ""
@@ -630,11 +648,19 @@ func VerifC09RunUnit(unit string) (res VerifUnitResult) {
 		b := vexec(mk())
 		account(b)
 		collect(b)
+		if b.outcome == "rejected" {
+			res.BaseReject = b.rejectBy
+		}
 		res.Sample = fmt.Sprintf("%s %s -> %d bytes %s", b.id, vtrunc(b.d0, 300), len(b.b0), vtrunc(hex.EncodeToString(b.b0), 120))
 		for si, s := range slots {
 			for ai := range s.alts {
 				c := vexec(mk([2]int{si, ai}))
 				vo3(b, c, [2]int{si, ai}, &res)
+				if b.outcome != "rejected" && c.b0 != nil && b.b0 != nil {
+					if msg := vo4d(fam, base.ver, b, c, s, s.alts[ai], &c.facts); msg != "" {
+						c.violate("O4-length-prefix", msg)
+					}
+				}
 				vinherit(b, c)
 				account(c)
 				collect(c)
@@ -717,6 +743,12 @@ func VerifC09RunCase(caseID string) (violations []VerifViolation, report string,
 		sort.Slice(ds, func(i, j int) bool { return ds[i][0] < ds[j][0] })
 		par := vexec(vcaseID{fam: id.fam, ver: id.ver, cfg: id.cfg, devs: ds[:n-1]})
 		vo3(par, c, ds[n-1], &res)
+		if n == 1 && par.b0 != nil && c.b0 != nil {
+			s := c.slots[ds[0][0]]
+			if msg := vo4d(vfam(id.fam), id.ver, par, c, s, s.alts[ds[0][1]], &c.facts); msg != "" {
+				c.violate("O4-length-prefix", msg)
+			}
+		}
 		if n == 2 {
 			base := vexec(vcaseID{fam: id.fam, ver: id.ver, cfg: id.cfg})
 			vo3(base, par, ds[0], &res)
